@@ -276,6 +276,14 @@ def run_c04(chk):
     chk.extra_cov["declarations"] = len(cases)
     res = chk.replay("rules-reflect", cases, "reflect", workers=WORKERS, timeout="60s")
     chk.absorb("rules-reflect", cases, res)
+    # descriptions on every describable element (types, properties, inline types, enum options, two inline enums in one
+    # message): read off the source text by the driver, compared with the reflected schemas (descriptors and printed text)
+    dcase = [{"files": {"foo/v1/parcel.j5s": open(os.path.join(vcheck.VERIF, "programs", "descriptions.j5s")).read()}}]
+    dres = chk.replay("rules-descriptions", dcase, "descriptions", workers=1, timeout="60s")
+    chk.absorb("rules-descriptions", dcase, dres)
+    chk.extra_cov["declared_descriptions_compared"] = ((dres[0].get("out") or {}).get("obs") or {}).get("declared", 0) if dres else 0
+    if not chk.extra_cov["declared_descriptions_compared"]:
+        chk.machinery_errors.append("the descriptions program did not run: %s" % json.dumps(dres[:1])[:400])
     count_skips(chk, res, "rules-reflect")
     chk.exhaustive = quick
     ev = [fix_nulls(x) for x in collect_events(res)]
